@@ -156,7 +156,14 @@ pub fn expr_into_reward_account(
     let address = expr_into_address(expr, network)?;
 
     let hash_bytes = match address {
-        pallas::ledger::addresses::Address::Shelley(x) => x.delegation().to_vec(),
+        // the reward account of a payment address is the stake address of its delegation part
+        pallas::ledger::addresses::Address::Shelley(x) => {
+            pallas::ledger::addresses::StakeAddress::try_from(x)
+                .map_err(|_| {
+                    Error::FormatError("can't convert address to reward account".to_string())
+                })?
+                .to_vec()
+        }
         pallas::ledger::addresses::Address::Stake(x) => x.to_vec(),
         _ => {
             return Err(Error::FormatError(
